@@ -4,7 +4,7 @@ import fmt_engine
 import conc_engine
 
 MODULE = "Feox.Props.C11W"
-THEOREMS = ['Feox.C11.recovered_entry_is_a_newest_generation', 'Feox.Fmt.winner_newest', 'Feox.Fmt.findLive_fold', 'Feox.C11.expiry_survives_restart_on_bytes', 'Feox.Fmt.findLive_fold_unique', 'Feox.C11.sweeper_removes_only_expired_current', 'Feox.C11.sweeper_needs_identity_check', 'Feox.Conc.Sweep.step_inv', 'Feox.C11.get_never_after', 'Feox.C11.range_never_after', 'Feox.C11.cas_never_after', 'Feox.C11.update_ttl_never_after', 'Feox.C11.patch_never_after', 'Feox.C11.incr_reinitialises', 'Feox.C11.get_never_before', 'Feox.C11.sweep_never_before', 'Feox.C11.survives_restart', 'Feox.C11.restart_drops_expired', 'Feox.C11.expiry_arith', 'Feox.C11.ttl_only_update_keeps_value',
+THEOREMS = ['Feox.Fmt.removeExpired_none', 'Feox.Fmt.no_expired_of_records', 'Feox.C11.recovered_entry_is_a_newest_generation', 'Feox.Fmt.winner_newest', 'Feox.Fmt.findLive_fold', 'Feox.C11.expiry_survives_restart_on_bytes', 'Feox.Fmt.findLive_fold_unique', 'Feox.C11.sweeper_removes_only_expired_current', 'Feox.C11.sweeper_needs_identity_check', 'Feox.Conc.Sweep.step_inv', 'Feox.C11.get_never_after', 'Feox.C11.range_never_after', 'Feox.C11.cas_never_after', 'Feox.C11.update_ttl_never_after', 'Feox.C11.patch_never_after', 'Feox.C11.incr_reinitialises', 'Feox.C11.get_never_before', 'Feox.C11.sweep_never_before', 'Feox.C11.survives_restart', 'Feox.C11.restart_drops_expired', 'Feox.C11.expiry_arith', 'Feox.C11.ttl_only_update_keeps_value',
             'Feox.C11.recovery_keeps_newest', 'Feox.C11.recovery_no_resurrection', 'Feox.Fmt.scan_dominates']
 
 
